@@ -23,6 +23,16 @@ def gen_program(rng, i, profile):
     cfg = f"cfg kind=conc cap={cap} ttl={ttl} tti={tti} weigher={weigher} hasher={rng.choice(['id', 'mod:2', 'const:7'])}"
     val = [100]
     lines = [cfg]
+    if profile == "invall":
+        # an inserting (and maintaining) thread against a thread that invalidates everything and reads
+        k = 1
+        progs = [[f"I {k} 101"] + (["S"] if rng.random() < 0.7 else []) + ([f"G {k}"] if rng.random() < 0.3 else []),
+                 [f"D {rng.choice([1, 1000, 600_000_000])}", "A", f"G {k}"] + ([f"C {k}"] if rng.random() < 0.3 else [])]
+        if rng.random() < 0.3:
+            progs.append([f"G {k}", "S"])
+        for t, ops in enumerate(progs):
+            lines.append(f"TH {t} " + " ; ".join(ops))
+        return lines, len(progs)
     for t in range(nth):
         nops = rng.randrange(1, 4 if profile == "tiny" else 7)
         ops = []
@@ -64,7 +74,7 @@ def random_schedule(rng, nth, n=400):
 
 
 # ----------------------------------------------------------------------------- parsing
-OPRE = re.compile(r"op t(\d+) (\d+) (.*?) -> (\S+) start=(\d+) end=(\d+) lin=(\S+)")
+OPRE = re.compile(r"op t(\d+) (\d+) (.*?) -> (\S+) start=(\d+) end=(\d+) lin=(\S+)(?: now=(\d+):(\d+))?")
 
 
 def parse_run(trace):
@@ -74,7 +84,8 @@ def parse_run(trace):
         m = OPRE.match(l)
         if m:
             ops.append({"t": int(m.group(1)), "i": int(m.group(2)), "op": m.group(3).split(), "res": m.group(4),
-                        "start": int(m.group(5)), "end": int(m.group(6)), "lin": None if m.group(7) == "-" else int(m.group(7))})
+                        "start": int(m.group(5)), "end": int(m.group(6)), "lin": None if m.group(7) == "-" else int(m.group(7)),
+                        "now0": int(m.group(8)) if m.group(8) else None, "now1": int(m.group(9)) if m.group(9) else None})
         elif l.startswith("ev "):
             _, step, t, site = l.split()
             events.append((int(step), int(t[1:]), site))
@@ -110,8 +121,6 @@ def oracle_termination(lines, run):
 
 def oracle_coherence(lines, run):
     ops = run["ops"]
-    if any(o["op"][0] == "A" for o in ops):
-        return None
     writes = {}
     for o in ops:
         if o["op"][0] == "I":
@@ -133,6 +142,12 @@ def oracle_coherence(lines, run):
             if m is not w and m["start"] > w["end"] and m["end"] < g["start"]:
                 return (f"t{g['t']} get({k}) returned {g['res']}, superseded by `{' '.join(m['op'])}` of t{m['t']} "
                         f"which completed before the get began")
+        # invalidate_all issued at a strictly later clock reading than the insert, completed before the get began
+        for a in ops:
+            if a["op"][0] == "A" and a["now0"] is not None and w["now1"] is not None and \
+                    w["now1"] < a["now0"] and w["end"] < a["start"] and a["end"] < g["start"]:
+                return (f"t{g['t']} get({k}) returned {g['res']} although invalidate_all of t{a['t']} (clock {a['now0']}), issued at a "
+                        f"strictly later reading than that insert (clock {w['now1']}), completed before the get began")
     # monotone reads per single writer
     for k, ms in mods.items():
         writers = {m["t"] for m in ms if m["op"][0] == "I"}
@@ -145,7 +160,7 @@ def oracle_coherence(lines, run):
             if seq != sorted(seq):
                 return f"thread t{t} saw the values of key {k} go backwards in the writer's order: {seq}"
     # final state: nothing or a maximal write
-    if run["final"]:
+    if run["final"] and not any(o["op"][0] == "A" for o in ops):
         s = SSnap(run["final"])
         for k, e in s.map.items():
             w = writes.get((k, str(e["v"])))
@@ -210,6 +225,7 @@ def hk_trace(run):
 ORACLES = {
     "C02": [oracle_termination, oracle_coherence],
     "C09": [oracle_termination],
+    "C07": [oracle_termination, oracle_coherence],
     "quiescent": [oracle_termination, oracle_quiescent],
 }
 
@@ -218,13 +234,13 @@ def explore(pid, tier, seed, nprog, exhaustive_bound):
     rng = random.Random(seed * 31337 + int(pid[1:]))
     cases = []
     for i in range(nprog):
-        profile = rng.choice(["tiny", "basic", "basic", "robust"]) if pid != "C02" else rng.choice(["tiny", "basic", "basic"])
+        profile = rng.choice(["tiny", "basic", "basic", "robust"]) if pid not in ("C02", "C07") else rng.choice(["tiny", "basic", "basic", "invall"])
         lines, nth = gen_program(rng, i, profile)
         # the unpreempted run, random schedules, and bounded-preemption exploration
         cases.append((f"p{i}_seq", lines + ["RUN"]))
         for j in range(3 if tier == "quick" else 12):
             cases.append((f"p{i}_r{j}", lines + ["SCHED " + " ".join(random_schedule(rng, nth)), "RUN"]))
-        if profile == "tiny" or tier == "thorough":
+        if profile in ("tiny", "invall") or tier == "thorough":
             horizon = 60
             pts = list(range(1, horizon, 1 if tier == "thorough" else 3))
             for p in pts:
@@ -288,6 +304,7 @@ def run(pid, tier, seed, model_ok, replay, nprog=None):
         import gen, p_cache, oracles as _orc
         brng = random.Random(seed * 11 + 9)
         bursts = [gen.gen_burst(brng, 9700 + i) for i in range(8 if tier == "quick" else 120)]
+        bursts += [gen.gen_cache_case(brng, "sync", 9900 + i) for i in range(250 if tier == "quick" else 2500)]
         burst_res = p_cache.run_cases(pid, _orc.oracle_safety, p_cache.PROJ["counters"], bursts, model_ok)
         violations += burst_res["violations"]
         disagreements += burst_res["disagreements"]
